@@ -259,7 +259,7 @@ pub fn new_vm(budget: u64) -> Vm<'static, Host> {
     vm
 }
 
-fn err_term(e: &ExecutionErrorPayload) -> String {
+pub fn err_term(e: &ExecutionErrorPayload) -> String {
     use ExecutionErrorPayload::*;
     match e {
         CallStackOverflow => "ECallStackOverflow".into(),
